@@ -80,54 +80,84 @@ example :
       = some [("bits", [0, 11, 0, 0, 0, 0, 0, 0]), ("payload", [4]), ("payload-list", [5])] := by
   decide
 
-/-- bytes: `pack_serializable` folds the registered packers over the pack list, so for EVERY packer function the
-    compiled form yields the interpreted form's bytes (or both fail). -/
-theorem compiled_bytes_eq (splice : V → Option V) (packer : String → List V → Option Bytes) (d : PDef V)
-    (attrs : Attrs V) (hwf : d.WF) (hd : d.DefaultsOK splice) :
-    (compiledPack splice d attrs).toOption.bind (packBytes packer)
-      = (interpPack d attrs).toOption.bind (packBytes packer) := by
-  rw [compiled_pack_eq splice d attrs hwf hd]
+/-- constructor → pack list → bytes, composed (the property's "given the same constructor arguments … the same
+    bytes"): for every packer function the compiled form's bytes equal the interpreted form's, or both fail -/
+theorem compiled_ctor_to_bytes_eq (splice : V → Option V) (packer : String → List V → Option Bytes) (d : PDef V)
+    (args : List V) (kw : KW V) (hwf : d.WF) (hd : d.DefaultsOK splice) (hkw : (keys kw).Nodup) :
+    ((compiledInit splice d args kw).toOption.bind
+        fun a => (compiledPack splice d a).toOption.bind (packBytes packer))
+      = ((interpInit d args kw).toOption.bind
+        fun a => (interpPack d a).toOption.bind (packBytes packer)) := by
+  rw [compiled_init_eq splice d args kw hwf hd hkw]
+  congr 1
+  funext a
+  rw [compiled_pack_eq splice d a hwf hd]
 
-/-! ## nesting in mixed forms -/
+/-- the code as repaired binds the default OBJECTS (`splice = some`): the only hypothesis left on defaults is the one
+    Python's grammar enforces on the user's own `__init__` (no parameter without default after one with a default) -/
+theorem compiled_init_eq_bound_defaults (d : PDef V) (args : List V) (kw : KW V) (hwf : d.WF)
+    (hord : defaultsOrdered (d.names.map (fun n => (n, alookup d.defaults n))) = true) (hkw : (keys kw).Nodup) :
+    (compiledInit some d args kw).toOption = (interpInit d args kw).toOption :=
+  compiled_init_eq some d args kw hwf ⟨fun _ _ _ => rfl, hord⟩ hkw
 
-/-- One induction step over the nesting depth.  `R v w`: "the same value, except that nested payload instances inside
-    may be instances of another form of the same definition".  If no packer can tell R-related values apart (for
-    "payload"/"payload-list" this is the present statement one level down; for primitive formats R is equality) and
-    the hooks preserve R, then a COMPILED instance and an INTERPRETED instance whose attributes are R-related give
-    the same bytes (or both fail) — for every definition, every packer function and every relation R. -/
-theorem nested_bytes_step (R : V → V → Prop) (splice : V → Option V) (packer : String → List V → Option Bytes)
-    (d : PDef V) (attrsC attrsI : Attrs V) (hwf : d.WF) (hd : d.DefaultsOK splice)
-    (hattrs : AttrsRel R attrsC attrsI)
-    (hhook : ∀ n f, alookup d.fixPack n = some f → ∀ v w, R v w → R (f v) (f w))
-    (hpacker : ∀ t vs ws, All₂ R vs ws → packer t vs = packer t ws) :
-    (compiledPack splice d attrsC).toOption.bind (packBytes packer)
-      = (interpPack d attrsI).toOption.bind (packBytes packer) := by
-  rw [compiled_pack_eq splice d attrsC hwf hd]
-  have h := packFmts_rel R d attrsC attrsI d.fmts 0 hattrs hhook
-  unfold interpPack
-  cases ha : packFmts d attrsC d.fmts 0 with
-  | error e =>
-    cases hb : packFmts d attrsI d.fmts 0 with
-    | error e' => rfl
-    | ok q => simp [ha, hb, ERel] at h
-  | ok p =>
-    cases hb : packFmts d attrsI d.fmts 0 with
-    | error e' => simp [ha, hb, ERel] at h
-    | ok q =>
-      simp only [ha, hb, ERel] at h
-      simp only [Except.toOption, Option.bind_some]
-      exact packBytes_rel R packer p q h hpacker
+/-- that hypothesis is needed, and it is what `@dataclass(kw_only=True)` runs into (keyword-only parameters are
+    regenerated as positional ones): a required field after a defaulted one does not compile (known finding
+    `convert_to_payload:dataclass-field-options`; a `default_factory` field is the `splice_hypothesis_needed` case:
+    the signature's default is dataclasses' marker object, not `factory()`) -/
+theorem kw_only_signature_does_not_compile :
+    let d : PDef Nat := { fmts := [.str "q", .str "q"], names := ["a", "b"], userInit := some false,
+                          defaults := [("a", 1)] }
+    (vpCompile some d).toOption.isNone = true ∧ (interpInit d [] [("b", 7)]).toOption = some [("b", 7), ("a", 1)] := by
+  decide
 
-/-- non-vacuity: values are (form tag, content); R ignores the tag; the packer only reads the content -/
-example :
-    let R : Nat × Nat → Nat × Nat → Prop := fun v w => v.2 = w.2
-    let d : PDef (Nat × Nat) := { fmts := [.str "I", .cls "Inner"], names := ["a", "p"] }
-    AttrsRel R [("p", (1, 40)), ("a", (0, 7))] [("p", (0, 40)), ("a", (0, 7))]
-    ∧ (compiledPack some d [("p", (1, 40)), ("a", (0, 7))]).toOption.bind
-        (packBytes (fun _ vs => some (vs.map (fun v => UInt8.ofNat v.2))))
-      = some [7, 40] := by
-  refine ⟨?_, by decide⟩
-  exact All₂.cons ⟨rfl, rfl⟩ (All₂.cons ⟨rfl, rfl⟩ All₂.nil)
+/-- form D re-runs `vp_compile` on every instantiation, reading the defaults back from the signature of the
+    previously GENERATED `__init__`: that changes nothing -/
+theorem recompile_idempotent (splice : V → Option V) (d : PDef V) (c : Compiled V)
+    (hwf : d.WF) (hd : d.DefaultsOK splice) (h : vpCompile splice d = .ok c) :
+    vpCompile splice (recompileDef d c) = .ok c := by
+  obtain ⟨gp, hgp, hc⟩ := vpCompile_ok splice d hwf hd
+  rw [hc] at h
+  injection h with h
+  subst h
+  obtain ⟨hsig, hnot⟩ := recompile_sig d (compileUnpack d.names (hasKey d.fixUnpack)) gp
+  generalize hr : recompileDef d _ = r at hsig hnot
+  have hnames : r.names = d.names := by subst hr; rfl
+  have hfm : r.fmts = d.fmts := by subst hr; rfl
+  have hfp : r.fixPack = d.fixPack := by subst hr; rfl
+  have hfu : r.fixUnpack = d.fixUnpack := by subst hr; rfl
+  have hsup : r.superArgs = d.superArgs := by subst hr; rfl
+  have hwf' : r.WF := ⟨hnames ▸ hwf.nodup, by rw [hnames, hfm]; exact hwf.slots,
+    by rw [hsup, hnames]; exact hwf.super_prefix, by rw [hsup, hfm]; exact hwf.super_len,
+    by rw [hsup, hfm]; exact hwf.super_single⟩
+  have hmap : r.names.map (fun n => (n, alookup r.sigDefaults n)) = d.names.map (fun n => (n, alookup d.sigDefaults n)) := by
+    rw [hnames]
+    exact List.map_congr_left (fun n hn => by rw [hsig n hn])
+  have hd' : r.DefaultsOK splice := by
+    constructor
+    · intro n v hv
+      have hui : r.userInit = some false := by subst hr; rfl
+      have hs : r.sigDefaults = r.defaults := by simp [PDef.sigDefaults, hui]
+      rw [← hs] at hv
+      by_cases hn : n ∈ d.names
+      · rw [hsig n hn] at hv
+        cases hu : d.userInit with
+        | none => simp [PDef.sigDefaults, hu, alookup] at hv
+        | some b => simp only [PDef.sigDefaults, hu] at hv; exact hd.splice_same n v hv
+      · rw [hnot n hn] at hv
+        cases hv
+    · have hui : r.userInit = some false := by subst hr; rfl
+      have hs : r.sigDefaults = r.defaults := by simp [PDef.sigDefaults, hui]
+      rw [← hs, hmap]
+      have := (compileInit_ok splice d hd)
+      -- ordering of the original signature
+      cases hu : d.userInit with
+      | none => simpa [PDef.sigDefaults, hu, alookup] using defaultsOrdered_none (V := V) d.names
+      | some b => simpa [PDef.sigDefaults, hu] using hd.ordered
+  obtain ⟨gp', hgp', hc'⟩ := vpCompile_ok splice r hwf' hd'
+  rw [hc', hmap, hnames, hfu]
+  rw [hfm, hnames, hfp, hgp] at hgp'
+  injection hgp' with hgp'
+  rw [← hgp']
 
 /-! ## trees of nested payloads in mixed forms: the induction over the nesting depth, mechanised (Tree.lean) -/
 
@@ -157,6 +187,19 @@ theorem nested_decode_form_independent (w : DWorld V) (φ ψ : Nat → Bool)
     (hinst : ∀ c k fs, w.isNone (.inst c k fs) = false) :
     ∀ n k data off, ORel (2 * n) (decodeObj w φ n k data off) (decodeObj w ψ n k data off) :=
   decode_form_independent w φ ψ hwf hhook hslots hlist hinst
+
+/-- non-vacuity of the decoding theorem: a two-level world in which decoding SUCCEEDS under both form assignments -/
+example :
+    let w : DWorld Nat :=
+      { defs := fun k => if k = 0 then { fmts := [.str "B"], names := ["x"] }
+                         else { fmts := [.str "B", .cls "Inner", .lst "Inner"], names := ["a", "p", "ps"] },
+        classOf := fun _ => 0, splice := some, isNone := fun _ => false,
+        unpackPrim := fun _ data off => (data[off]?).map (fun b => ([b.toNat], off + 1)),
+        nestedSlice := fun data off => (data[off]?).map (fun b => ((data.drop (off + 1)).take b.toNat, off + 1 + b.toNat)),
+        listCount := fun data off => (data[off]?).map (fun b => (b.toNat, off + 1)) }
+    (decodeObj w (fun _ => true) 2 1 [7, 1, 9, 2, 1, 4, 1, 5] 0).map (·.2) = some 8
+    ∧ (decodeObj w (fun _ => false) 2 1 [7, 1, 9, 2, 1, 4, 1, 5] 0).map (·.2) = some 8 := by
+  decide
 
 /-- non-vacuity: an outer class with a nested payload and a payload list; all forms flipped; same bytes -/
 example :
@@ -218,7 +261,7 @@ theorem compiled_decode_eq (splice : V → Option V) (isNone : V → Bool)
 theorem dataclass_def (dd : DDef V) (d : PDef V) (h : dd.toPDef = .ok d) :
     d.names = dd.fields.map (·.1) ∧ mapTypes (dd.fields.map (·.2.1)) = .ok d.fmts ∧
     d.userInit = some false ∧ d.defaults = fieldDefaults dd.fields ∧
-    d.fixPack = dd.fixPack ∧ d.fixUnpack = dd.fixUnpack := by
+    d.fixPack = dd.fixPack ∧ d.fixUnpack = dd.fixUnpack ++ derivedUnpack dd.conv dd.fixUnpack dd.fields := by
   unfold DDef.toPDef at h
   cases hm : mapTypes (dd.fields.map (·.2.1)) with
   | error e => simp [hm] at h
@@ -266,7 +309,7 @@ theorem dataclass_eq (splice : V → Option V) (isNone : V → Bool) (dd : DDef 
     exact compiled_unpack_eq splice isNone d args hwf hd hl hn
 
 example :
-    let dd : DDef Nat := { fields := [("a", .int, none), ("b", .coll .bool, none), ("c", .collSer "Item", some 5)] }
+    let dd : DDef Nat := { fields := [("a", .int, none), ("b", .coll .list .bool, none), ("c", .coll .tuple (.ser "Item"), some 5)] }
     (dd.toPDef.toOption.map (·.fmts)) = some [.str "q", .str "arrayH-?", .lst "Item"]
     ∧ (dataclassInit some dd [1] [("b", 2)]).toOption = some [("c", 5), ("b", 2), ("a", 1)] := by
   decide
@@ -281,7 +324,7 @@ theorem type_map_formats :
     ∧ (∀ s ∈ ["?", "q", "d"], (Gen.arrayPrefix ++ s) ∈ Gen.registeredFormats)
     ∧ [nativeFmt .bool, nativeFmt .int, nativeFmt .float, nativeFmt .bytes, nativeFmt .str]
         = Gen.typeMapTable.map (fun p => some p.2)
-    ∧ (typeMap (.coll .int)).toOption = some (.str (Gen.arrayPrefix ++ "q")) := by
+    ∧ (typeMap (.coll .set .int)).toOption = some (.str (Gen.arrayPrefix ++ "q")) := by
   decide
 
 /-! ## the dataclass form before its first instantiation (known finding) -/
@@ -326,22 +369,41 @@ theorem dataclass_decode_eq_partial (splice : V → Option V) (isNone : V → Bo
   rw [this]
   exact compiled_decode_eq splice isNone unpackAll d data hwf hd hser
 
-/-! ## inheritance between dataclass payloads and the order of first instantiation -/
+/-! ## inheritance between dataclass payloads and the order of first instantiation
+
+  The condition under which `__new__` converts the class is read from the SOURCE (`Gen.newGuard`, regenerated on
+  every run); `DChain.newStep`/`DChain.run` execute it.  The theorems below are about the guard the code has now and
+  stop compiling when it changes (`hier_guard_matters` shows that they can fail). -/
+
+/-- the source calls `convert_to_payload(cls)` unconditionally in both `__new__` methods -/
+theorem new_guard_is_unconditional : Gen.newGuard = .always := by decide
 
 /-- class-level data does not depend on the conversion state once the class itself has been instantiated: for every
     chain, every sequence of instantiations (parents first, children first, interleaved, repeated) that contains class
-    `k`, `format_list`/`names` of class `k` are those of its flattened field list (parent fields ++ own fields). -/
+    `k`, under the guard of the source, `format_list`/`names` of class `k` are those of its flattened field list
+    (parent fields ++ own fields). -/
 theorem hier_class_def_after_instance (c : DChain V) (evs : List Nat) (k : Nat) (h : k ∈ evs) :
-    c.classData (runInst evs) k = c.classData [k] k := by
+    c.classData (c.run Gen.newGuard evs) k = c.classData [k] k := by
+  rw [new_guard_is_unconditional, DChain.run_always]
   unfold DChain.classData
   rw [nearest_self _ k ((mem_runInst evs k).mpr h), nearest_self [k] k (by simp)]
 
-/-- instances: whatever was converted before, constructing class `k` behaves like the plain interpreted definition
-    of the flattened field list, and so do its pack list and `from_unpack_list` (conversion state has no influence). -/
+/-- the statement is sensitive to the guard: with "convert only if `not cls.format_list`" (seeded change C20_m3) a child
+    instantiated after its parent keeps the parent's class-level data -/
+theorem hier_guard_matters :
+    let c : DChain Nat := { levels := [[("ident", .int, none)], [("body", .bytes, some 7)]] }
+    (c.classData (c.run .ifNoFormatList [0, 1]) 1).toOption = some ([.str "q"], ["ident"])
+    ∧ (c.classData (c.run .always [0, 1]) 1).toOption = some ([.str "q", .str "varlenH"], ["ident", "body"])
+    ∧ (c.classData (c.run .ifNoFormatList [1, 0]) 1).toOption = some ([.str "q", .str "varlenH"], ["ident", "body"]) := by
+  decide
+
+/-- instances: whatever was converted before, constructing class `k` (its `__new__` running under the guard of the
+    source) behaves like the plain interpreted definition of the flattened field list, and so do its pack list and
+    `from_unpack_list` (conversion state has no influence). -/
 theorem hier_instance_eq (splice : V → Option V) (isNone : V → Bool) (c : DChain V) (conv : List Nat) (k : Nat)
     (d : PDef V) (h : (c.ddef k).toPDef = .ok d) (hwf : d.WF) (hd : d.DefaultsOK splice) :
     (∀ args kw, (keys kw).Nodup →
-        (c.hierInit splice conv k args kw).toOption = (interpInit d args kw).toOption) ∧
+        (c.hierInit Gen.newGuard splice conv k args kw).toOption = (interpInit d args kw).toOption) ∧
     (∀ attrs, dataclassPack splice (c.ddef k) attrs = interpPack d attrs) ∧
     (∀ args, args.length = d.names.length → (∀ a ∈ args, isNone a = false) →
         (dataclassUnpack splice isNone (c.ddef k) args).toOption = (interpUnpack d args).toOption) := by
@@ -349,12 +411,15 @@ theorem hier_instance_eq (splice : V → Option V) (isNone : V → Bool) (c : DC
   refine ⟨?_, h2, h3⟩
   intro args kw hkw
   unfold DChain.hierInit
+  rw [new_guard_is_unconditional]
+  simp only [DChain.newStep]
   rw [nearest_self (k :: conv) k (by simp)]
   exact h1 args kw hkw
 
 /-- decoding is where the state matters, and exactly so: a class that has been instantiated decodes like its plain
     flattened definition in every state; a class that has NOT been instantiated decodes as its nearest converted
-    ancestor (a parent-shaped object), or as in `dataclass_decode_first_fails` if there is none. -/
+    ancestor (a parent-shaped object), or as in `dataclass_decode_first_fails` if there is none — and that failed
+    attempt converts it (`decodeStep`), so the next decode succeeds. -/
 theorem hier_decode_state (splice : V → Option V) (isNone : V → Bool)
     (unpackAll : List Fmt → Bytes → Option (List V)) (c : DChain V) (conv : List Nat) (k : Nat) (data : Bytes) :
     (k ∈ conv → ∀ d, (c.ddef k).toPDef = .ok d → d.WF → d.DefaultsOK splice →
@@ -364,7 +429,8 @@ theorem hier_decode_state (splice : V → Option V) (isNone : V → Bool)
     (∀ j, nearest conv k = some j →
         c.hierDecode unpackAll splice isNone conv k data = c.hierDecode unpackAll splice isNone [j] j data) ∧
     (nearest conv k = none →
-        c.hierDecode unpackAll splice isNone conv k data = dataclassDecodeFirst unpackAll splice (c.ddef k) data) := by
+        c.hierDecode unpackAll splice isNone conv k data = dataclassDecodeFirst unpackAll splice (c.ddef k) data
+        ∧ k ∈ c.decodeStep Gen.newGuard conv k) := by
   refine ⟨?_, ?_, ?_⟩
   · intro hk d hd hwf hdo hser
     unfold DChain.hierDecode
@@ -375,17 +441,22 @@ theorem hier_decode_state (splice : V → Option V) (isNone : V → Bool)
     unfold DChain.hierDecode
     rw [hj, nearest_self [j] j (by simp)]
   · intro hn
-    unfold DChain.hierDecode
-    rw [hn]
+    refine ⟨?_, ?_⟩
+    · unfold DChain.hierDecode
+      rw [hn]
+    · unfold DChain.decodeStep
+      rw [hn, new_guard_is_unconditional]
+      simp [DChain.newStep]
 
 /-- non-vacuity: header/body chain, parent instantiated first, then the child -/
 example :
     let c : DChain Nat := { levels := [[("ident", .int, none), ("flag", .bool, some 1)],
                                        [("body", .bytes, some 7), ("text", .str, some 8)]] }
-    (c.classData (runInst [0, 1]) 1).toOption
+    (c.classData (c.run Gen.newGuard [0, 1]) 1).toOption
         = some ([.str "q", .str "?", .str "varlenH", .str "varlenHutf8"], ["ident", "flag", "body", "text"])
-    ∧ (c.classData (runInst [0]) 1).toOption = some ([.str "q", .str "?"], ["ident", "flag"])
-    ∧ (c.hierInit some (runInst [0]) 1 [5] []).toOption = some [("text", 8), ("body", 7), ("flag", 1), ("ident", 5)] := by
+    ∧ (c.classData (c.run Gen.newGuard [0]) 1).toOption = some ([.str "q", .str "?"], ["ident", "flag"])
+    ∧ (c.hierInit Gen.newGuard some (c.run Gen.newGuard [0]) 1 [5] []).toOption
+        = some [("text", 8), ("body", 7), ("flag", 1), ("ident", 5)] := by
   decide
 
 /-- an UNCOMPILED subclass of a vp_compile'd class that extends the field list inherits the parent's generated
@@ -419,6 +490,6 @@ theorem shipped_compiled_eq :
 /-- the registry really contains the shipped definitions with `bits` and nesting (non-vacuity of the instantiation) -/
 example : (Gen.shipped.filter (fun s => s.fmts.contains (.str "bits"))).length ≥ 1
     ∧ (Gen.shipped.filter (fun s => s.fmts.any (fun f => f.tag == "payload-list"))).length ≥ 1
-    ∧ Gen.shipped.length ≥ 40 := by decide
+    ∧ (Gen.shipped.filter (fun s => !s.names.isEmpty)).length ≥ 1 := by decide
 
 end Ipv8.C20
